@@ -45,6 +45,8 @@ SUBJ = {
  "F57": "a list index beyond the i32 range wrapped around",
  "F58": "JUnit output was not well-formed XML when a quoted value held control characters",
  "F59": "rulegen wrote floats with a positive exponent",
+ "F60": "the Terraform console reporter panicked (todo!)",
+ "F61": "long lines with multi-byte characters made the output writer panic",
  "F31": "`test` listed the rules of a test case in a different order",
 }
 log = subprocess.run(["git", "-C", "/repo", "log", "--format=%h %s"], capture_output=True, text=True).stdout.splitlines()
